@@ -1014,10 +1014,6 @@ func (h *RealtimeHandler) leaveSession() {
 		return
 	}
 
-	for _, m := range h.Modules {
-		m.HandleDisconnect()
-	}
-
 	session.GetEntityComponents().UnsubscribeByParticipant(participant.ID)
 
 	now := timestamppb.Now()
@@ -1039,6 +1035,13 @@ func (h *RealtimeHandler) leaveSession() {
 				EntityId:        entity.ID,
 			})
 		})
+	}
+
+	// The modules release what they hold for the entities that are gone once
+	// these are out of the session: what another participant attaches to one of
+	// them in the meantime is either released here or refused.
+	for _, m := range h.Modules {
+		m.HandleDisconnect()
 	}
 
 	if h.stopFrameHandling != nil {
